@@ -148,7 +148,12 @@ def rule_L2(ctx: Ctx) -> None:
     gp = ctx.index.func(f"{TU}.get_path_tokens")
     sd = X.assignments_to(gp.node, "start_idx")
     ed = [d for d in X.assignments_to(gp.node, "end_idx") if not (isinstance(d, ast.Constant) and d.value is None)]
-    ok = len(sd) == 1 and X.same_expr(sd[0], "tokens.index(SPECIAL_TOKENS.PATH_START) + int(trim_end)") and len(ed) == 1 and X.same_expr(ed[0], "tokens.index(SPECIAL_TOKENS.PATH_END)")
+    # normalised shape: `end_idx = tokens.index(PATH_END) if trim_end and PATH_END in tokens else None`
+    ed_ok = False
+    if len(ed) == 1 and isinstance(ed[0], ast.IfExp):
+        rel, _ = X.same_relation(ed[0].test, "trim_end and SPECIAL_TOKENS.PATH_END in tokens")
+        ed_ok = bool(rel) and X.same_expr(ed[0].body, "tokens.index(SPECIAL_TOKENS.PATH_END)") and isinstance(ed[0].orelse, ast.Constant) and ed[0].orelse.value is None
+    ok = len(sd) == 1 and X.same_expr(sd[0], "tokens.index(SPECIAL_TOKENS.PATH_START) + int(trim_end)") and ed_ok
     ctx.judge(gp, ok, {"start_idx": X.U(sd[0]) if sd else None, "end_idx": X.U(ed[0]) if ed else None},
               "get_path_tokens(trim_end=True) returns the tokens strictly between PATH_START and PATH_END")
 
